@@ -1,6 +1,6 @@
 (* Uniform executable entry point of the model for the correspondence check:
    run_case tag args = the observable outputs the implementation must produce for the same case. *)
-From DDSV Require Import base.Machine model.View model.Layout model.DecoderSM model.EncoderSM model.Split model.DecodeScript model.Formats gen.GenFormats spec.SpecLayout model.HeaderTypes gen.GenHeader model.Header model.Numeric model.BCdec model.BC7 model.Float model.Convert model.Uncomp model.Crop model.RectPath model.Encode model.BC6 model.BCF32.
+From DDSV Require Import base.Machine model.View model.Layout model.DecoderSM model.EncoderSM model.Split model.DecodeScript model.Formats gen.GenFormats spec.SpecLayout model.HeaderTypes gen.GenHeader model.Header model.Numeric model.BCdec model.BC7 model.Float model.Convert model.Uncomp model.Crop model.RectPath model.PixelPath model.Encode model.BC6 model.BCF32.
 
 Local Open Scope Z_scope.
 
@@ -381,6 +381,16 @@ Definition run_c51 (a : list Z) : list Z :=
   | _ => [-99]
   end.
 
+(* ---- C05 uncompressed code paths: [conv; bbpp; ebpp; outbpp; w; h] -> the ProcessPixelsFn calls, each preceded by its length *)
+Definition run_c52 (a : list Z) : list Z :=
+  match a with
+  | [conv; bbpp; ebpp; outbpp; w; h] =>
+      let n := Z.to_nat in
+      flat_map (fun e => Z.of_nat (length e) :: map Z.of_nat e)
+        (PixelPath.pixel_trace (negb (conv =? 0)) 3072 (n bbpp) (n ebpp) (n outbpp) (n w) (n h))
+  | _ => [-99]
+  end.
+
 (* ---- C12 uncompressed encode: [fmt; channels; prec; values...] -> bytes *)
 Definition run_c12 (a : list Z) : list Z :=
   match a with
@@ -412,6 +422,7 @@ Definition run_case (tag : Z) (args : list Z) : list Z :=
   | 4 => run_c04 args
   | 5 => run_c05 args
   | 51 => run_c51 args
+  | 52 => run_c52 args
   | 12 => run_c12 args
   | 121 => run_c121 args
   | 40 => run_c40 args
